@@ -186,6 +186,117 @@ impl Report {
     }
 }
 
+// ---- compact binary form, used to ship a shard's report to the parent process ----
+fn put_u64(b: &mut Vec<u8>, x: u64) {
+    b.extend_from_slice(&x.to_le_bytes());
+}
+fn put_str(b: &mut Vec<u8>, s: &str) {
+    put_u64(b, s.len() as u64);
+    b.extend_from_slice(s.as_bytes());
+}
+struct Rd<'a>(&'a [u8], usize);
+impl<'a> Rd<'a> {
+    fn u64(&mut self) -> u64 {
+        let v = u64::from_le_bytes(self.0[self.1..self.1 + 8].try_into().unwrap());
+        self.1 += 8;
+        v
+    }
+    fn str(&mut self) -> String {
+        let n = self.u64() as usize;
+        let s = String::from_utf8_lossy(&self.0[self.1..self.1 + n]).to_string();
+        self.1 += n;
+        s
+    }
+}
+
+impl Report {
+    pub fn to_bytes(&self) -> Vec<u8> {
+        let mut b = vec![];
+        put_str(&mut b, &self.prop);
+        put_u64(&mut b, self.evaluations);
+        put_u64(&mut b, self.distinct.len() as u64);
+        for d in &self.distinct {
+            put_u64(&mut b, *d);
+        }
+        put_u64(&mut b, self.samples.len() as u64);
+        for s in &self.samples {
+            put_str(&mut b, s);
+        }
+        put_u64(&mut b, self.violations.len() as u64);
+        for v in self.violations.values() {
+            put_str(&mut b, &v.sig);
+            put_str(&mut b, &v.what);
+            put_str(&mut b, &v.case);
+            put_u64(&mut b, v.count);
+        }
+        put_u64(&mut b, self.counters.len() as u64);
+        for (k, v) in &self.counters {
+            put_str(&mut b, k);
+            put_u64(&mut b, *v);
+        }
+        put_u64(&mut b, self.cover.len() as u64);
+        for (k, v) in &self.cover {
+            put_str(&mut b, k);
+            put_u64(&mut b, v.len() as u64);
+            for x in v {
+                put_u64(&mut b, *x);
+            }
+        }
+        for list in [&self.inconclusive, &self.exhaustive_parts, &self.notes] {
+            put_u64(&mut b, list.len() as u64);
+            for s in list {
+                put_str(&mut b, s);
+            }
+        }
+        b
+    }
+    pub fn from_bytes(bytes: &[u8]) -> Report {
+        let mut r = Rd(bytes, 0);
+        let mut rep = Report::new(&r.str());
+        rep.evaluations = r.u64();
+        for _ in 0..r.u64() {
+            let d = r.u64();
+            rep.distinct.insert(d);
+        }
+        for _ in 0..r.u64() {
+            let s = r.str();
+            rep.samples.push(s);
+        }
+        for _ in 0..r.u64() {
+            let sig = r.str();
+            let what = r.str();
+            let case = r.str();
+            let count = r.u64();
+            rep.violations.insert(sig.clone(), Violation { sig, what, case, count });
+        }
+        for _ in 0..r.u64() {
+            let k = r.str();
+            let v = r.u64();
+            rep.counters.insert(k, v);
+        }
+        for _ in 0..r.u64() {
+            let k = r.str();
+            let n = r.u64();
+            let mut set = BTreeSet::new();
+            for _ in 0..n {
+                set.insert(r.u64());
+            }
+            rep.cover.insert(k, set);
+        }
+        for which in 0..3 {
+            for _ in 0..r.u64() {
+                let s = r.str();
+                match which {
+                    0 => rep.inconclusive.push(s),
+                    1 => rep.exhaustive_parts.push(s),
+                    _ => rep.notes.push(s),
+                }
+            }
+        }
+        rep
+    }
+}
+
 pub fn jstr(s: &str) -> String {
     let mut o = String::with_capacity(s.len() + 2);
     o.push('"');
